@@ -90,6 +90,7 @@ type gField struct {
 	store   bool // stored value possible
 	maxLocs int
 	multi   bool // the field may occur twice in a document
+	maxOcc  int  // (with multi) up to this many occurrences (default 2)
 	always  bool // field present in every document (no presence bit)
 	allTerm bool // every term present (no has bit)
 	fixFreq bool // frequency is the constant 1 (no symbolic number)
@@ -105,6 +106,7 @@ type gCfg struct {
 	idBase   string
 	symTyp   bool // stored type byte symbolic (else 't')
 	storeAll bool // every storable occurrence is stored (no symbolic bit)
+	idDV     bool // the _id field is indexed with doc values (symbolic per batch)
 	noFx     bool // freq of hits with locations is exactly the number of locations
 }
 
@@ -143,18 +145,28 @@ func vGenBatch(cfg gCfg) ([]index.Document, *sSpec) {
 	g := &gen{cfg: cfg}
 	sp := &sSpec{}
 	var docs []index.Document
+	idDV := cfg.idDV && cfg.nDocs > 0 && vBool(cfg.prefix+"idDV")
 	nameSet := map[string]bool{}
 	var names []string
 	for d := 0; d < cfg.nDocs; d++ {
 		id := fmt.Sprint(cfg.idBase, d)
 		ds := &sDocSpec{id: id}
-		doc := &vDoc{id: id, fields: []index.Field{vIDField(id)}}
+		idf := vIDField(id)
+		if idDV {
+			idf.options |= index.DocValues
+			ds.dv = append(ds.dv, sDV{field: "_id", terms: []string{id}})
+		}
+		doc := &vDoc{id: id, fields: []index.Field{idf}}
 		for fi, gf := range cfg.fields {
 			occ := 0
 			if gf.always || vBool(fmt.Sprint(cfg.prefix, "fp", d, "_", fi)) {
 				occ = 1
-				if gf.multi && vBool(fmt.Sprint(cfg.prefix, "fm", d, "_", fi)) {
-					occ = 2
+				if gf.multi {
+					mo := gf.maxOcc
+					if mo < 2 {
+						mo = 2
+					}
+					occ = 1 + vChoice(fmt.Sprint(cfg.prefix, "fm", d, "_", fi), mo)
 				}
 			}
 			if occ == 0 {
@@ -281,6 +293,9 @@ func vGenBatch(cfg gCfg) ([]index.Document, *sSpec) {
 			if gf.dv && nameSet[gf.name] {
 				sp.dvFields = append(sp.dvFields, gf.name)
 			}
+		}
+		if idDV {
+			sp.dvFields = append(sp.dvFields, "_id")
 		}
 		sort.Strings(sp.dvFields)
 		// stored values are visited in field-id order (sorted names), occurrences in input order
@@ -443,7 +458,7 @@ func sCheckDocValuesX(seg segment.Segment, sp *sSpec, order []int, tag string, e
 		}
 	}
 	// ask for every configured field, also those without doc values
-	var ask []string
+	ask := []string{"_id"}
 	for _, fp := range sp.posts {
 		ask = append(ask, fp.field)
 	}
